@@ -3,7 +3,10 @@
 mod core;
 mod gen;
 mod hashseed;
+mod c13;
 mod ide_sim;
+mod lsp;
+mod lspcheck;
 mod query;
 mod rng;
 
@@ -203,6 +206,359 @@ fn ide_replay(args: &[String]) -> i32 {
     }
 }
 
+// ---------------------------------------------------------------------------------------------
+// lsp-sim front end
+
+struct LspEval {
+    violation: Option<ide_sim::Violation>,
+    nontrivial: bool,
+    kind_key: String,
+    counters: BTreeMap<String, u64>,
+}
+
+fn lsp_gen(prop: &str, seed: u64, run: u64, thorough: bool) -> lsp::Session {
+    match prop {
+        "C13" => c13::gen_session(seed, run, thorough),
+        _ => panic!("unknown lsp property {prop}"),
+    }
+}
+
+fn lsp_eval(s: &lsp::Session, h: &lsp::History) -> LspEval {
+    let mut counters = BTreeMap::new();
+    match s.property.as_str() {
+        "C13" => {
+            let mut st = c13::Stats::default();
+            let violation = c13::check(s, h, &mut st);
+            counters.insert("probes_checked".to_string(), st.probes_checked);
+            counters.insert("edits_applied".to_string(), st.edits_applied);
+            counters.insert("syntax_tree_crosschecks".to_string(), st.syntax_tree_crosschecks);
+            LspEval { violation, nontrivial: st.nontrivial, kind_key: st.kind_key, counters }
+        }
+        p => panic!("unknown lsp property {p}"),
+    }
+}
+
+fn fnv_str(s: &str) -> u64 {
+    let mut h = rng::Fnv::default();
+    h.write_str(s);
+    h.0
+}
+
+fn lsp_worker(args: &[String]) -> i32 {
+    let prop = arg(args, "--prop").expect("--prop");
+    let seed: u64 = arg(args, "--seed").and_then(|s| s.parse().ok()).unwrap_or(1);
+    let from: u64 = arg(args, "--from").and_then(|s| s.parse().ok()).unwrap_or(0);
+    let to: u64 = arg(args, "--to").and_then(|s| s.parse().ok()).unwrap_or(100);
+    let stride: u64 = arg(args, "--stride").and_then(|s| s.parse().ok()).unwrap_or(1);
+    let thorough = arg(args, "--tier").as_deref() == Some("thorough");
+    let out = arg(args, "--out").expect("--out");
+    let worker = arg(args, "--worker").unwrap_or_else(|| "0".into());
+    let budget_s: f64 = arg(args, "--time-budget").and_then(|s| s.parse().ok()).unwrap_or(1e9);
+    let want_hashes = flag(args, "--log-hashes");
+    let t0 = Instant::now();
+    let mut agg = Agg::default();
+    let mut run = from;
+    let mut poisoned = false;
+    while run < to {
+        if t0.elapsed().as_secs_f64() > budget_s {
+            break;
+        }
+        let s = lsp_gen(&prop, seed, run, thorough);
+        let h = lsp::run_session(&s, false);
+        let ev = lsp_eval(&s, &h);
+        agg.runs += 1;
+        agg.steps += h.steps;
+        if h.contended > 0 {
+            agg.contended_runs += 1;
+        }
+        if ev.nontrivial {
+            let key = if s.sequential { fnv_str(&ev.kind_key) } else { h.trace_hash };
+            agg.nontrivial_hashes.insert(key);
+        }
+        if want_hashes {
+            agg.log_hashes.push((run, h.log_hash));
+        }
+        add_map(&mut agg.faults, &h.faults);
+        add_map(&mut agg.probes, &h.probes);
+        add_map(&mut agg.counters, &ev.counters);
+        add_map(&mut agg.change_kinds, &h.point_counts);
+        for (k, v) in [
+            ("degraded_free_run", h.degraded_free_run as u64),
+            ("tasks_spawned", h.tasks_spawned),
+            ("completed", h.completed as u64),
+            ("messages_received", h.events.iter().filter(|e| matches!(e, lsp::Ev::Recv { .. })).count() as u64),
+            ("messages_sent", h.events.iter().filter(|e| matches!(e, lsp::Ev::Sent { .. })).count() as u64),
+        ] {
+            *agg.counters.entry(k.into()).or_insert(0) += v;
+        }
+        *agg.counters.entry(format!("gran.{}", s.gran.name())).or_insert(0) += 1;
+        *agg.counters.entry(format!("concurrency.{}", s.concurrency)).or_insert(0) += 1;
+        if agg.samples.len() < 2 && ev.nontrivial {
+            let mut p = s.clone();
+            p.decisions = Some(h.decisions.iter().take(60).cloned().collect());
+            let mut j = p.to_json();
+            j["note"] = json!("decision list abbreviated to its first 60 entries");
+            agg.samples.push(j);
+        }
+        if let Some(v) = &ev.violation {
+            let mut p = s.clone();
+            p.decisions = Some(h.decisions.clone());
+            let mut j = p.to_json();
+            j["violation"] = v.to_json();
+            j["event_log_hash"] = json!(format!("{:016x}", h.log_hash));
+            let path = format!("{out}/raw-{prop}-{seed}-{run}.json");
+            std::fs::write(&path, serde_json::to_string_pretty(&j).unwrap()).unwrap();
+            agg.violations.push(json!({"run": run, "path": path, "violation": v.to_json()}));
+            if h.poisoned {
+                poisoned = true;
+                break;
+            }
+            if agg.violations.len() >= 8 {
+                break;
+            }
+        } else if h.poisoned {
+            agg.harness_errors.push(format!("run {run}: threads stuck after the run without a violation"));
+            poisoned = true;
+            break;
+        }
+        run += stride;
+    }
+    let wall = t0.elapsed().as_secs_f64();
+    let j = json!({
+        "worker": worker, "prop": prop, "seed": seed, "from": from, "to": to, "stride": stride,
+        "next_run": run, "runs": agg.runs, "steps": agg.steps, "contended_runs": agg.contended_runs,
+        "nontrivial_hashes": agg.nontrivial_hashes.iter().map(|h| format!("{h:016x}")).collect::<Vec<_>>(),
+        "faults": agg.faults, "probes": agg.probes, "change_kinds": agg.change_kinds, "counters": agg.counters,
+        "violations": agg.violations, "harness_errors": agg.harness_errors, "samples": agg.samples,
+        "log_hashes": agg.log_hashes.iter().map(|(r, h)| json!([r, format!("{h:016x}")])).collect::<Vec<_>>(),
+        "wall_s": wall,
+    });
+    std::fs::write(format!("{out}/worker-{worker}.json"), serde_json::to_string(&j).unwrap()).unwrap();
+    if poisoned {
+        std::process::exit(0);
+    }
+    0
+}
+
+fn lsp_plan(args: &[String]) -> i32 {
+    let prop = arg(args, "--prop").expect("--prop");
+    let seed: u64 = arg(args, "--seed").and_then(|s| s.parse().ok()).unwrap_or(1);
+    let run: u64 = arg(args, "--run").and_then(|s| s.parse().ok()).unwrap_or(0);
+    let thorough = arg(args, "--tier").as_deref() == Some("thorough");
+    let s = lsp_gen(&prop, seed, run, thorough);
+    let out = arg(args, "--write").expect("--write");
+    std::fs::write(out, serde_json::to_string_pretty(&s.to_json()).unwrap()).unwrap();
+    0
+}
+
+fn lsp_replay(args: &[String]) -> i32 {
+    let path = &args[0];
+    let v: Value = serde_json::from_str(&std::fs::read_to_string(path).expect("read replay")).expect("json");
+    let s = lsp::Session::from_json(&v);
+    let h = lsp::run_session(&s, true);
+    let ev = lsp_eval(&s, &h);
+    if flag(args, "--log") {
+        for l in h.log.as_deref().unwrap_or(&[]) {
+            println!("{l}");
+        }
+        for e in &h.events {
+            println!("EV {}", format!("{e:?}").chars().take(400).collect::<String>());
+        }
+    }
+    let res = json!({
+        "violation": ev.violation.as_ref().map(|v| v.to_json()),
+        "harness_error": null,
+        "event_log_hash": format!("{:016x}", h.log_hash),
+        "steps": h.steps, "replay_misses": h.replay_misses,
+        "degraded_free_run": h.degraded_free_run, "server_exit": h.server_exit, "completed": h.completed,
+    });
+    println!("RESULT {}", serde_json::to_string(&res).unwrap());
+    if let Some(outp) = arg(args, "--write") {
+        let mut p = s.clone();
+        p.decisions = Some(h.decisions.clone());
+        let mut j = p.to_json();
+        if let Some(v) = &ev.violation {
+            j["violation"] = v.to_json();
+        }
+        j["event_log_hash"] = json!(format!("{:016x}", h.log_hash));
+        std::fs::write(outp, serde_json::to_string_pretty(&j).unwrap()).unwrap();
+    }
+    let code = if ev.violation.is_some() { 1 } else { 0 };
+    if h.poisoned {
+        std::process::exit(code);
+    }
+    code
+}
+
+/// ddmin-style shrinking of a failing session while the violation signature persists.
+fn lsp_shrink(args: &[String]) -> i32 {
+    let path = &args[0];
+    let out = arg(args, "--write").expect("--write");
+    let budget = std::time::Duration::from_secs(arg(args, "--budget").and_then(|s| s.parse().ok()).unwrap_or(60));
+    let v: Value = serde_json::from_str(&std::fs::read_to_string(path).expect("read replay")).expect("json");
+    let orig = lsp::Session::from_json(&v);
+    let sig = v["violation"]["signature"].as_str().expect("violation.signature").to_string();
+    let t0 = Instant::now();
+    let mut tries = 0u32;
+    let mut poisoned = false;
+    let mut fails = |s: &lsp::Session, tries: &mut u32, poisoned: &mut bool| -> Option<Vec<String>> {
+        if *poisoned {
+            return None;
+        }
+        *tries += 1;
+        let h = lsp::run_session(s, false);
+        let ev = lsp_eval(s, &h);
+        if h.poisoned {
+            *poisoned = true;
+        }
+        match ev.violation {
+            Some(v) if v.signature() == sig => Some(h.decisions),
+            _ => None,
+        }
+    };
+    let mut best = orig.clone();
+    if let Some(d) = fails(&best, &mut tries, &mut poisoned) {
+        best.decisions = Some(d);
+        let mut progress = true;
+        while progress && t0.elapsed() < budget && !poisoned {
+            progress = false;
+            // 1. drop operations (chunks first, then single), never the 4-op preamble
+            let mut chunk = (best.ops.len() / 2).max(1);
+            while chunk >= 1 && t0.elapsed() < budget && !poisoned {
+                let mut i = best.ops.len();
+                while i > 4 && t0.elapsed() < budget && !poisoned {
+                    let lo = i.saturating_sub(chunk).max(4);
+                    let mut cand = best.clone();
+                    cand.ops.drain(lo..i);
+                    if let Some(d) = fails(&cand, &mut tries, &mut poisoned) {
+                        cand.decisions = Some(d);
+                        best = cand;
+                        progress = true;
+                    }
+                    i = lo;
+                }
+                if chunk == 1 {
+                    break;
+                }
+                chunk /= 2;
+            }
+            // 2. simplify operations: fewer edits per change, no fragmentation, shorter texts
+            for i in 4..best.ops.len() {
+                if t0.elapsed() >= budget || poisoned {
+                    break;
+                }
+                let mut cands: Vec<lsp::PlannedOp> = Vec::new();
+                let p = best.ops[i].clone();
+                if !p.cuts.is_empty() {
+                    let mut c = p.clone();
+                    c.cuts.clear();
+                    cands.push(c);
+                }
+                match &p.op {
+                    lsp::Op::Change { uri, edits } if edits.len() > 1 => {
+                        for k in (0..edits.len()).rev() {
+                            let mut e2 = edits.clone();
+                            e2.remove(k);
+                            let mut c = p.clone();
+                            c.op = lsp::Op::Change { uri: uri.clone(), edits: e2 };
+                            cands.push(c);
+                        }
+                    }
+                    lsp::Op::Change { uri, edits } if edits.len() == 1 && edits[0].text.chars().count() > 1 => {
+                        let mut e2 = edits.clone();
+                        let t: String = e2[0].text.chars().take(e2[0].text.chars().count() / 2).collect();
+                        e2[0].text = t;
+                        let mut c = p.clone();
+                        c.op = lsp::Op::Change { uri: uri.clone(), edits: e2 };
+                        cands.push(c);
+                    }
+                    lsp::Op::Open { uri, text } if text.chars().count() > 1 => {
+                        for keep in [text.chars().count() / 2, text.chars().count() - 1] {
+                            let t: String = text.chars().take(keep).collect();
+                            let mut c = p.clone();
+                            c.op = lsp::Op::Open { uri: uri.clone(), text: t };
+                            cands.push(c);
+                        }
+                    }
+                    _ => {}
+                }
+                for c in cands {
+                    let mut cand = best.clone();
+                    cand.ops[i] = c;
+                    if let Some(d) = fails(&cand, &mut tries, &mut poisoned) {
+                        cand.decisions = Some(d);
+                        best = cand;
+                        progress = true;
+                        break;
+                    }
+                }
+            }
+            // 3. faults and knobs
+            if !best.crashes.is_empty() {
+                for k in (0..best.crashes.len()).rev() {
+                    let mut cand = best.clone();
+                    cand.crashes.remove(k);
+                    if let Some(d) = fails(&cand, &mut tries, &mut poisoned) {
+                        cand.decisions = Some(d);
+                        best = cand;
+                        progress = true;
+                    }
+                }
+            }
+            if best.gran != core::Granularity::Coarse {
+                let mut cand = best.clone();
+                cand.gran = core::Granularity::Coarse;
+                cand.decisions = None;
+                if let Some(d) = fails(&cand, &mut tries, &mut poisoned) {
+                    cand.decisions = Some(d);
+                    best = cand;
+                    progress = true;
+                }
+            }
+        }
+        // 4. shortest decision prefix
+        if let Some(dec) = best.decisions.clone() {
+            let (mut lo, mut hi) = (0usize, dec.len());
+            while lo < hi && t0.elapsed() < budget && !poisoned {
+                let mid = (lo + hi) / 2;
+                let mut cand = best.clone();
+                cand.decisions = Some(dec[..mid].to_vec());
+                if fails(&cand, &mut tries, &mut poisoned).is_some() {
+                    hi = mid;
+                } else {
+                    lo = mid + 1;
+                }
+            }
+            let mut cand = best.clone();
+            cand.decisions = Some(dec[..hi].to_vec());
+            if fails(&cand, &mut tries, &mut poisoned).is_some() {
+                best = cand;
+            }
+        }
+    }
+    let mut j = best.to_json();
+    j["violation"] = v["violation"].clone();
+    if !poisoned {
+        let h = lsp::run_session(&best, true);
+        let ev = lsp_eval(&best, &h);
+        if let Some(vi) = &ev.violation {
+            j["violation"] = vi.to_json();
+            j["event_log_hash"] = json!(format!("{:016x}", h.log_hash));
+        }
+        if h.poisoned {
+            poisoned = true;
+        }
+    }
+    j["shrink"] = json!({"candidates_tried": tries, "ops_before": orig.ops.len(), "ops_after": best.ops.len(),
+        "decisions_before": orig.decisions.as_ref().map_or(0, |d| d.len()), "decisions_after": best.decisions.as_ref().map_or(0, |d| d.len())});
+    std::fs::write(&out, serde_json::to_string_pretty(&j).unwrap()).unwrap();
+    println!("SHRUNK {}", serde_json::to_string(&j["shrink"]).unwrap());
+    if poisoned {
+        std::process::exit(0);
+    }
+    0
+}
+
 fn ide_log(args: &[String]) -> i32 {
     let prop = arg(args, "--prop").expect("--prop");
     let seed: u64 = arg(args, "--seed").and_then(|s| s.parse().ok()).unwrap_or(1);
@@ -262,6 +618,10 @@ fn main() {
         Some("ide-replay") => ide_replay(&args[1..]),
         Some("ide-shrink") => ide_shrink(&args[1..]),
         Some("ide-log") => ide_log(&args[1..]),
+        Some("lsp-worker") => lsp_worker(&args[1..]),
+        Some("lsp-replay") => lsp_replay(&args[1..]),
+        Some("lsp-plan") => lsp_plan(&args[1..]),
+        Some("lsp-shrink") => lsp_shrink(&args[1..]),
         _ => {
             eprintln!("usage: glas-sim <ide-worker|ide-replay|...> ...");
             2
